@@ -180,31 +180,36 @@ impl<'a, L> Engine<'a, L> {
     /// then mark it as being a list node
     /// (i.e. it must not be rendered directly)
     fn mark_list_node(&mut self, inode: usize) {
-        let (g_id, s_id) = &self.gs_id[inode];
-        debug_assert!(s_id.starts_with("_:"), "{}", s_id);
-        // NB: a node that is never used as an object has no entry in unique_parent
-        if let Some(Some((iparent, pp))) = self.unique_parent.get(s_id) {
+        // NB: a loop rather than a recursion on the parent,
+        // so that the stack does not grow with the length of the list
+        let mut inode = inode;
+        loop {
+            let (g_id, s_id) = &self.gs_id[inode];
+            debug_assert!(s_id.starts_with("_:"), "{}", s_id);
+            // NB: a node that is never used as an object has no entry in unique_parent
+            let Some(Some((iparent, pp))) = self.unique_parent.get(s_id) else {
+                return;
+            };
             if self.options.processing_mode() == JsonLd1_0 && pp.as_ref() == RDF_FIRST {
                 return;
             }
             // node 'gs_id' has a unique parent
             let (pg_id, ps_id) = &self.gs_id[*iparent];
-            if pg_id == g_id && self.graph_count[s_id] == 1 {
-                // unique parent is in the same graph,
-                // and this bnode is not used in any other graph (nor as a graph name)
+            if pg_id != g_id || self.graph_count[s_id] != 1 {
+                // unique parent must be in the same graph,
+                // and this bnode must not be used in any other graph (nor as a graph name)
                 // (otherwise, rendering it as an anonymous list node would lose that link)
-                let map = &mut self.node[inode];
-                if is_list_node(map) {
-                    // this node is indeed a list node
-                    self.list_node.insert(s_id.clone(), *iparent);
-                    if ps_id.starts_with("_:") && pp.as_ref() == RDF_REST {
-                        let iparent = *iparent;
-                        // the explicit copy of iparent above is required,
-                        // to release the immutable borrow on self,
-                        // so that we can mutably borrow self below
-                        self.mark_list_node(iparent);
-                    }
-                }
+                return;
+            }
+            if !is_list_node(&self.node[inode]) {
+                return;
+            }
+            // this node is indeed a list node
+            self.list_node.insert(s_id.clone(), *iparent);
+            if ps_id.starts_with("_:") && pp.as_ref() == RDF_REST {
+                inode = *iparent;
+            } else {
+                return;
             }
         }
     }
@@ -427,15 +432,20 @@ impl<'a, L> Engine<'a, L> {
         list_items: &mut Vec<Meta<JsonValue<()>, ()>>,
         inode: usize,
     ) -> Result<(), JsonLdError> {
-        //println!("=== populate_list {}", gs_id);
-        let map = &self.node[inode];
-        list_items.push(self.convert_rdf_object(&map[RDF_FIRST][0])?);
-        if let RdfObject::Node(inext, id) = &map[RDF_REST][0] {
-            if id.as_ref() != RDF_NIL {
-                self.populate_list(list_items, *inext)?;
+        // NB: a loop rather than a recursion on rdf:rest,
+        // so that the stack does not grow with the length of the list
+        let mut inode = inode;
+        loop {
+            //println!("=== populate_list {}", gs_id);
+            let map = &self.node[inode];
+            list_items.push(self.convert_rdf_object(&map[RDF_FIRST][0])?);
+            match &map[RDF_REST][0] {
+                RdfObject::Node(inext, id) if id.as_ref() != RDF_NIL => {
+                    inode = *inext;
+                }
+                _ => return Ok(()),
             }
         }
-        Ok(())
     }
 }
 
